@@ -644,12 +644,16 @@ def run(ctx: Ctx):
     if thorough:
         scopes = [("stat", dict(max_len=4, vals=(-16, 0, 24, 64), svals=(0, 8)), "segmetrics",
                    "statistics: all log2 vectors of length 0..4 over {-1/4,0,3/8,1} x segment log2 {0,1/8}, every statistic"),
-                  ("sel", dict(max_coord=3, nchrom=2, max_bins=3, max_segs=2), "segmetrics",
-                   "bin selection: all sorted tables of <= 3 bins x <= 2 segments over 0..3 on 2 chromosomes x skip_low"),
+                  ("sel", dict(max_coord=3, nchrom=2, max_bins=3, max_segs=1), "segmetrics",
+                   "bin selection: all sorted tables of <= 3 bins x <= 1 segment over 0..3 on 2 chromosomes x skip_low"),
+                  ("sel", dict(max_coord=3, nchrom=2, max_bins=2, max_segs=2), "segmetrics",
+                   "bin selection: all sorted tables of <= 2 bins x <= 2 segments over 0..3 on 2 chromosomes x skip_low"),
                   ("sel", dict(max_coord=4, nchrom=1, max_bins=3, max_segs=2), "segmetrics",
                    "bin selection: all sorted tables of <= 3 bins x <= 2 segments over 0..4 on 1 chromosome x skip_low"),
-                  ("bt", dict(max_coord=3, nchrom=2, max_bins=3, max_segs=2), "bintest",
-                   "bintest: all sorted tables of <= 3 bins x <= 2 segments over 0..3 on 2 chromosomes x target_only x alpha choice"),
+                  ("bt", dict(max_coord=3, nchrom=2, max_bins=2, max_segs=2), "bintest",
+                   "bintest: all sorted tables of <= 2 bins x <= 2 segments over 0..3 on 2 chromosomes x target_only x alpha choice"),
+                  ("bt", dict(max_coord=3, nchrom=1, max_bins=3, max_segs=2), "bintest",
+                   "bintest: all sorted tables of <= 3 bins x <= 2 segments over 0..3 on 1 chromosome x target_only x alpha choice"),
                   ("bh", dict(max_len=4), "bh", "p_adjust_bh: all p-vectors of length 0..4 over {0,1/4,1/2,1}")]
     else:
         scopes = [("stat", dict(max_len=3, vals=(0, 24, 64), svals=(0, 8)), "segmetrics",
@@ -660,8 +664,6 @@ def run(ctx: Ctx):
                    "bin selection: all sorted tables of <= 3 bins x <= 2 segments over 0..3 on 1 chromosome x skip_low"),
                   ("bt", dict(max_coord=3, nchrom=2, max_bins=2, max_segs=1), "bintest",
                    "bintest: all sorted tables of <= 2 bins x <= 1 segment over 0..3 on 2 chromosomes x target_only x alpha choice"),
-                  ("bt", dict(max_coord=3, nchrom=1, max_bins=3, max_segs=2), "bintest",
-                   "bintest: all sorted tables of <= 3 bins x <= 2 segments over 0..3 on 1 chromosome x target_only x alpha choice"),
                   ("bh", dict(max_len=4), "bh", "p_adjust_bh: all p-vectors of length 0..4 over {0,1/4,1/2,1}")]
     scopes = [sc for sc in scopes if wanted(sc[2])]
     for k, (fam, kw, _op, name) in enumerate(scopes):
@@ -702,6 +704,15 @@ def run(ctx: Ctx):
     for rec in recs:
         ctx.count_input(_key(rec), nontrivial=bool(rec.get("bins") or rec.get("ps")))
         _count(ctx, rec)
+    if not only:
+        # vacuity guard on the inputs (DESIGN 8.1): every statistic requested, and every boundary input present
+        need = [f"requested_{x}" for x in LOC + SPR + ITV] + [
+            "segment_with_0_bins", "segment_with_1_bin", "bin_straddling_a_segment_edge", "alpha_equals_a_logged_adjusted_p",
+            "tied_p_values", "p_equal_0", "p_equal_1", "bh_p_equal_0", "bh_p_equal_1", "bh_tied_p_values", "skip_low",
+            "log2_exactly_at_low_cut", "ci_smoothed", "target_only", "weight_exactly_1", "some_but_not_all_bins_returned"]
+        missing = [x for x in need if not ctx.boundary.get(x)]
+        if missing:
+            raise MachineryError(f"vacuity guard: boundary inputs never generated: {missing}")
     for rec in (recs[0], recs[n_mc // 2] if n_mc else rnd[0], rnd[0], rnd[len(rnd) // 2], rnd[-1]):
         ctx.sample(rec)
     ctx.rng.shuffle(recs)       # heavy records (long segments, long p-vectors) are spread over the batch
@@ -725,7 +736,8 @@ def run(ctx: Ctx):
         "ci 'inside the bins' range' is claimed for the plain bootstrap only: the smoothed bootstrap adds Gaussian noise to "
         "the replicates by design and does leave the range",
         "bintest: a tested bin with weight exactly 1 and residual exactly 0 (z = 0/0) is outside the premise",
-        "biweight midvariance is compared with its formula for segments of <= 80 bins (TLC cost); above that only sign and finiteness",
+        "biweight midvariance: 'agrees with the published formula' as C19 judges it (any admissible stopping round of the "
+        "biweight location as centre, 1e-6; MAD fallback on exactly symmetric data)",
         "standard deviation = population sd (ddof 0, numpy convention), SEM = sample sd / sqrt n (ddof 1), MAD scaled by 1.4826, "
         "as the code's function table has them; the property text does not fix these conventions"]
 
